@@ -107,6 +107,25 @@ fn rare_shapes(b: usize) -> Vec<GenItem> {
             "#[derive(Serialize, Deserialize, Debug, Clone, PartialEq)]\npub enum @N@ {\n    Small,\n    Wide {\n        g0: u8,\n        g1: u8,\n        g2: u8,\n        g3: u8,\n        g4: u8,\n        g5: u8,\n        g6: u8,\n        g7: u8,\n        g8: u8,\n        g9: u8,\n        g10: u8,\n        g11: u8,\n        g12: u8,\n        g13: u8,\n        g14: u8,\n        g15: u8,\n        g16: u8,\n        g17: u8,\n        g18: u8,\n        g19: u8,\n        g20: u8,\n        g21: u8,\n        g22: u8,\n        g23: u8,\n        g24: u8,\n        g25: u8,\n        g26: u8,\n        g27: u8,\n        g28: u8,\n        g29: u8,\n        g30: u8,\n        g31: u8,\n        g32: u8,\n        g33: u8,\n        #[typeshare(skip)]\n        g34: u8,\n        g35: u8,\n    },\n}\n",
             vec!["skip"],
         ),
+        // the same identifier in sibling modules (`desktop::Settings`, `mobile::Settings`), each with helpers of its own:
+        // one expansion knows nothing of another
+        {
+            let body = |annot: bool| -> String {
+                let a = |s: &str| if annot { s.to_string() } else { String::new() };
+                format!(
+                    "pub mod same_name_{b} {{\n    pub mod desktop {{\n        use super::super::*;\n        {}#[derive(Serialize, Deserialize, Debug, Clone, PartialEq)]\n        pub struct Settings {{\n            {}pub width: u32,\n            pub title: String,\n        }}\n    }}\n    pub mod mobile {{\n        use super::super::*;\n        {}#[derive(Serialize, Deserialize, Debug, Clone, PartialEq)]\n        pub struct Settings {{\n            pub dpi: u32,\n            {}{}pub scratch: Option<u8>,\n        }}\n    }}\n    pub mod watch {{\n        use super::super::*;\n        {}#[derive(Serialize, Deserialize, Debug, Clone, PartialEq)]\n        #[serde(tag = \"t\", content = \"c\")]\n        pub enum Settings {{\n            {}Plain,\n            Rec {{\n                {}a: u8,\n            }},\n        }}\n    }}\n}}\n",
+                    a("#[typeshare]\n        "),
+                    a("#[typeshare(serialized_as = \"String\")]\n            "),
+                    a("#[typeshare(swift = \"Equatable\")]\n        #[typeshare(kotlin = \"JvmInline\")]\n        "),
+                    a("#[typeshare(skip)]\n            "),
+                    "#[serde(skip)]\n            ",
+                    a("#[typeshare]\n        "),
+                    a("#[typeshare(skip)]\n            "),
+                    a("#[typeshare(typescript(readonly))]\n                "),
+                )
+            };
+            GenItem { name: format!("same_name_{b}"), annotated: body(true), stripped: body(false), value: None, kind: "same-name-in-sibling-modules", helpers: vec!["serialized_as", "skip", "typescript(readonly)"] }
+        },
         mk(
             format!("RareTupleConstGen{b}"),
             "const-generic-tuple-struct",
